@@ -215,24 +215,24 @@ ALL = [f"C{i:02d}" for i in range(1, 21)]
 
 # dimensions added during the seeded-change rounds (DESIGN.md 14.2 / 14.4), appended to the level text
 ADDED = {
-    "C04": "An observer browses pending retries through the DELAYED category and gives them back; stop mode as in C02.",
-    "C16": "The scripted actor may wrap its eager response in a broad `except Exception` (which must not intercept it). The eager response may be given by a dependency or sub-dependency of the actor (next to a slower sibling dependency): the actor body must then not run.",
-    "C01": "Cancellation is aimed at the n-th call of one operation and the step offset inside it is swept (quick: every 12th network / 40th in-memory scenario). Consumers bounded by max_unacked_messages (1, 2) besides unbounded ones.",
+    "C04": "An observer browses pending retries through the DELAYED category and gives them back; stop mode as in C02. Retry policies that back off for 2-14 days: the retry is still pending 8 s later on every broker.",
+    "C16": "The scripted actor may wrap its eager response in a broad `except Exception` (which must not intercept it). The eager response may be given by a dependency or sub-dependency of the actor (next to a slower sibling dependency): the actor body must then not run. Callbacks that raise, and callbacks given as functools.partial objects.",
+    "C01": "Cancellation is aimed at the n-th call of one operation and the step offset inside it is swept (quick: every 12th network / 30th in-memory scenario; consume() itself is among the aimed operations). Consumers bounded by max_unacked_messages (1, 2) besides unbounded ones.",
     "C02": "Stop mode: every 70th task runs C03's stop sweep (retry-heavy jobs, graceful period 0) - one disposition per delivery also when the worker is stopped in the middle of it. Also: return values no converter can encode, eager responses guarded by try/except Exception in the actor, time limits from 1 s to 3 days with fractional parts; synchronous actors on simulated pool threads/processes that return, raise or overrun their time limit (the late return value of an uncancellable function is nobody's result).",
     "C03": "Stops by message limit (backlog larger than the prefetch) besides stops by signal. Half of the scenarios carry observers (yielding/slow/raising/sync subscribers) on the worker's connection; signal emissions are counted against the recorded calls.",
-    "C05": "Messages sent back by the consumer through requeue() with a new due time; retried-recurring message shape. Half of the consumers call consume() once and wait (as a worker does); 20% of the scenarios enqueue a far-future message first and sooner-due ones while the consumer idles. Process time zone UTC / UTC+9 / UTC-7 (naive datetimes are local time).",
+    "C05": "Messages sent back by the consumer through requeue() with a new due time; retried-recurring message shape. Half of the consumers call consume() once and wait (as a worker does); 20% of the scenarios enqueue a far-future message first and sooner-due ones while the consumer idles. Process time zone UTC / UTC+9 / UTC-7 (naive datetimes are local time). A backlog of 3-25 delayed messages of another topic in front of the own ones, consumer filtering by topic (in-memory, Redis).",
     "C06": "Also: 2-4 recurring jobs on one slot grid; a results broker stalling for 0.6/1.3 periods; a stop request during an iteration with the forced cancellation placed at every loop step 0-7 after the body's end. force_retry() past the retry budget of a recurring job (attempts per iteration are bounded by the budget).",
     "C07": "Decoy messages whose name merely starts with the job's name; job settings compared at every delivery. Sequence mode: one worker, several jobs reusing an args id / message id one after the other or enqueued in a burst (same id on two queues), stalling arguments-bucket store; payloads larger than an AMQP frame.",
     "C09": "Also: a second, saturated worker with another topic on the same in-memory queue; actor bodies ending with CancelledError (in-memory, Redis). 15% of the scenarios use synchronous actors on simulated pool threads (threads or processes) where 1-3 functions overrun a 1 s execution timeout: a function that cannot be cancelled counts against the limit until it returns.",
-    "C10": "graceful_shutdown_time 60 / 0.2 / 0.02 s, i.e. also shorter than the executions running when the limit is reached. A second worker consumes the same queue (15%): exactly-once overall and the limit of the limited worker.",
+    "C10": "graceful_shutdown_time 60 / 0.2 / 0.02 s, i.e. also shorter than the executions running when the limit is reached. A second worker consumes the same queue (15%): exactly-once overall and the limit of the limited worker. Result stores that raise (a processing task ending with an error still counts against the limit).",
     "C11": "A quarter of the jobs (own and foreign) are deferred until one common instant.",
-    "C12": "An actor start after the expiry is judged whether the message was taken late or expired while waiting for a free slot; the ttl clock of retried messages is compared with the recorder's latest scheduling.",
-    "C13": "Slow I/O: a result store stalls for 20 ms - 5 s (every store in turn for every 10th scenario); the producer polls Job.result while the chains run.",
-    "C14": "Day-long time limits with bystander connections whose maintenance runs meanwhile; two overlapping rejects of one delivery (Redis, RabbitMQ). The holder's reject/ack and its consumer's finish() overlap at offsets -4..+4 loop steps. Messages of two topics on one queue with topic-filtering consumers; delayed messages sharing their due instant.",
+    "C12": "An actor start after the expiry is judged whether the message was taken late or expired while waiting for a free slot; the ttl clock of retried messages is compared with the recorder's latest scheduling. The dead-letter queue is browsed with a foreign topic filter before the expired message is retrieved from it.",
+    "C13": "Slow I/O: a result store stalls for 20 ms - 5 s (every store in turn for every 10th scenario); the producer polls Job.result while the chains run. Application object created with update_config=True in 15% of the runs.",
+    "C14": "Day-long time limits with bystander connections whose maintenance runs meanwhile; two overlapping rejects of one delivery (Redis, RabbitMQ). The holder's reject/ack and its consumer's finish() overlap at offsets -4..+4 loop steps. Messages of two topics on one queue with topic-filtering consumers; delayed messages sharing their due instant. One of the workers is told to stop while its actors run (they finish within the graceful period).",
     "C15": "Consumers subscribed to two topics; bodies of 70/200 kB. Another task pauses/unpauses the consumer while consume() waits (in-memory, Redis); messages deferred until a past instant are ordinary FIFO members.",
     "C17": "Stop mode on all three brokers: C03's stop sweep with 1-6 observers, C03's conservation oracle; calls that leave optional arguments out; raising subscribers whose text contains braces (repid's logger is live, into a sink). Calls that fail in the caller's own task (missing queue, wait_for around consume(), flaky result store) followed by more calls of that task; broker classes made by a factory with their own parameter names.",
     "C18": "Payload keys colliding with dependency parameters; metadata behind the dependency in Annotated. Message parameters before or after the Depends parameters; providers whose value is an exception object. Provider values that are awaitable objects are passed on untouched (never awaited by the framework).",
-    "C20": "Requests with invalid UTF-8 bytes in method/path; refused connections judged during the graceful shutdown. Seeded cut positions inside the final CRLFCRLF; GETs during the graceful shutdown after a consumer failure; the same Worker run a second time. Requests with very long paths / query strings under a CPU-time watchdog per loop step (1.5 s).",
+    "C20": "Requests with invalid UTF-8 bytes in method/path; refused connections judged during the graceful shutdown. Seeded cut positions inside the final CRLFCRLF; GETs during the graceful shutdown after a consumer failure; the same Worker run a second time. Requests with very long paths / query strings under a CPU-time watchdog per loop step (1.5 s). A worker without actors (run() returns at once): the port is closed afterwards. The no-traffic differential is only made where no timing race exists (no injected failure, or loop steps costing no virtual time).",
 }
 
 
